@@ -357,16 +357,20 @@ func (c *Conn) nextFrame() (int, MessageType, []byte, bool, bool, bool, error) {
 			bodyLen = int64(payloadLen)
 		}
 
-		ml := 0
-		if c.message != nil {
-			ml = len(*c.message)
-		}
-		if c.isMessageTooLarge(ml + int(bodyLen)) {
-			return 0, 0, nil, false, false, false, ErrMessageTooLarge
+		isControl := (opcode == PingMessage) || (opcode == PongMessage) || (opcode == CloseMessage)
+		if !isControl {
+			// control frames are not part of a message, even between its
+			// fragments: only data frames count against the message limit.
+			ml := 0
+			if c.message != nil {
+				ml = len(*c.message)
+			}
+			if c.isMessageTooLarge(ml + int(bodyLen)) {
+				return 0, 0, nil, false, false, false, ErrMessageTooLarge
+			}
 		}
 
-		if (bodyLen > maxControlFramePayloadSize) &&
-			((opcode == PingMessage) || (opcode == PongMessage) || (opcode == CloseMessage)) {
+		if (bodyLen > maxControlFramePayloadSize) && isControl {
 			return 0, 0, nil, false, false, false, ErrControlMessageTooBig
 		}
 
